@@ -147,3 +147,17 @@ PROPS["C18"] = {
                        "C18_go_line_colon_path_refuted": "refuted without the no-colon hypothesis (witness a:b/q.go)",
                        "C18_explicit_position_wins": "proved", "C18_wrapped_graphql_position": "proved", "C18_no_position_iff": "proved"},
 }
+
+PROPS["C03"] = {
+    "coq": ["Properties/C03.v", "Corr/C03corr.v"],
+    "trusted": [
+        "gqlparser's parser and validator (front end for both the user's document and the re-parsed emitted document) and its formatter: that the printed text re-parses to the same AST is VALIDATED on every case (re-parse + re-validate + structural comparison), not proved",
+        "harness/export: gqlparser AST -> Gallina terms; arguments, directives and variable definitions are compared as canonical renderings (opaque ids in the model)",
+        "validator.Walk's traversal order (fields post-order, spreads in selection order) as read from gqlparser's source",
+    ],
+    "assumptions": ["String is not an interface/union in the schema (hypothesis of two theorems; true of every valid schema)"],
+    "level_text": "Theorems over all fragment tables and selection sets (no acyclicity or size assumption): usedFragments terminates, lists no fragment twice and lists exactly the spread-reachable fragments; stripping the synthesised fields from the preprocessed document gives back the user's document exactly; the insertion is a leading __typename made only on interface/union-typed fields without a direct __typename, and afterwards every such field has one; preprocessing is idempotent (shared fragments). Tied to generate.go by exporting the user's AST and the re-parsed emitted document of every operation of random multi-operation programs and comparing the model's predicted document with it in-kernel, plus an independent in-kernel specification on the observed document.",
+    "level_note": "partial: the printing leg (gqlparser formatter) is validated per case, not proved.",
+    "theorem_status": {"C03_closure": "proved", "C03_only_typename_added": "proved", "C03_typename_placement": "proved",
+                       "C03_typename_everywhere_needed": "proved", "C03_idempotent_shared": "proved"},
+}
